@@ -850,9 +850,12 @@ def trace_part(out, pid, tier, progs, ws, batches, seed, n_runs, maxlen, proj, w
         rs = random_inputs(rnd, p, n_runs, maxlen, extra_inputs)
         for r in rs:
             r["ctor"] = rnd.choice(list(ctors))
-            if len(r["inp"]) <= max_validate_len:
-                r["fine"] = True
         reqs.extend(rs)
+    # fine-grained recording (one event per library operation) for a bounded number of runs:
+    # each recording is carried through two TLC trace validations
+    cand = [r for r in reqs if len(r["inp"]) <= max_validate_len]
+    for r in (cand if len(cand) <= 6000 else rnd.sample(cand, 6000)):
+        r["fine"] = True
     results = run_requests(ws, batches, reqs, pid)
     runs = []
     fine_runs = []
@@ -1117,8 +1120,10 @@ def check_C15(tier, seed):
             "every clone point (before the first call, after every call including errors, "
             "switches and the final None) the real lexer is cloned and original and clone are "
             "advanced under three interleavings; both recorded suffix streams and both final user "
-            "states must equal the specification's (which is deterministic: one successor per "
-            "decision); also with iterator input")
+            "states must equal the specification's (which is deterministic: TLC's enumeration yields "
+            "exactly one behaviour per (program, input, decision history), checked on every run); "
+            "also with iterator input and with lexers that use two large built-in classes")
+    out.coverage["spec_behaviours_unique_per_decision_history"] = getattr(fr, "deterministic_behaviours", 0)
     # baseline: the same behaviour without cloning
     base_bad = set()
     for m in fr.mismatches:
